@@ -135,6 +135,17 @@ def check(run, replay=None, prop="C15", harness_cmd="c15"):
     run.oblige("implementation-only oracle: property sentences hold on the recorded behaviour of the real relay/codec "
                "(askers only, at most once, answered if live, first live publication, retention, no dead entries)",
                not oracle_fail)
+    conc_fail, conc_n = [], 0
+    try:
+        cl = open(os.path.join(run.dir, "concurrent.txt")).read().split("\n")
+        conc_n = int(cl[0].split()[1])
+        conc_fail = [l[5:] for l in cl if l.startswith("FAIL")]
+    except (OSError, ValueError, IndexError):
+        pass
+    if conc_n:
+        run.oblige("concurrent clients on a multi-threaded runtime (%d scenarios with interleaving-independent outcome): "
+                   "one copy per ask, askers only, one publication per id delivered to everybody" % conc_n, not conc_fail)
+        run.extra["concurrent_scenarios"] = conc_n
     # ---- correspondence: the model evaluated inside Coq on the same histories
     bad = []
     corr_ok = False
@@ -166,7 +177,7 @@ def check(run, replay=None, prop="C15", harness_cmd="c15"):
         if not corr_ok:
             run.extra["correspondence_error"] = (log1 + log2)[-1500:]
     hist_lines = [l for l in lines if l.startswith("hist")]
-    run.evaluations = len(lines)
+    run.evaluations = len(lines) + conc_n
     run.nontrivial = len({l for l in hist_lines if nontrivial(l)}) + sum(1 for l in lines if l.startswith("codec"))
     run.rule = ("histories of publish / ask / drain / messages() operations with explicit clock values, executed by the real "
                 "SimpleMessageRelay (virtual clock, current-thread runtime, yield until quiescent) and by the model inside Coq; "
@@ -202,6 +213,11 @@ def check(run, replay=None, prop="C15", harness_cmd="c15"):
         else:
             rep["codec_case"] = l.strip()
         run.violation("real relay/codec violates %s: %s" % (prop, what), rep)
+        return
+    if conc_fail:
+        run.violation("real relay violates %s under concurrent clients: %s" % (prop, conc_fail[0]),
+                      {"entry": ENTRY, "disagreeing": "implementation-only oracle, concurrent scenario (harness c15::concurrent, "
+                       "seeded by seed= and the run number)", "detail": conc_fail[:5], "count": len(conc_fail)})
         return
     broken = []
     if not front["gen_ok"]:
